@@ -41,6 +41,12 @@ and every published entry exposed (C11:collector-exposes-unwritten-series / -unw
 A dedicated stream uses the exact store operations REAL Histogram children perform (logged from the real metrics code in
 multiprocess mode: sum, one bucket per bound in order, +Inf last, then observations) in a file named histogram_<pid>.db.
 
+Error returns: the fallible file calls of the writer (`f.truncate`, `mmap.mmap`) are made to fail with OSError — every single
+one of every history, consecutive ones, random sets; the caller catches the exception and the SAME writer object carries on
+with the remaining operations.  After every operation the live file is read, collected and reopened: nothing raises, and what
+is read is the reference state of the operations so far where each failed operation completed, left no trace, or left its new
+key at zero (kind 'fault'; the ordinary signatures apply).
+
 All keys of the histories are built with mmap_dict.mmap_key so that the collector can parse them (continuation keys are plain).
 
 Thorough tier: forked writers run a long seeded history and are SIGKILLed at random instants; the same three observations and
@@ -54,6 +60,7 @@ C11:all-zero-file (the sized but still all-zero file must read as
 empty and reopen with used = 8), C11:writer-raises (a plain history raised while being recorded).
 """
 import builtins
+import errno
 import hashlib
 import itertools
 import mmap
@@ -1266,6 +1273,274 @@ def run_histories(ctx, judge, md, scratch, cases, label, fname='gauge_all_777.db
     return recs
 
 
+# ------------------------------------------------------------------------------------------------- error returns
+class FaultInjector:
+    """patches `mmap` and `open` as seen from prometheus_client.mmap_dict (like Recorder).  The file effects that can RETURN an
+    error to the writer — `f.truncate(n)` ('T': ENOSPC / EFBIG / quota) and `mmap.mmap(...)` ('M': ENOMEM / ENODEV) — are
+    counted while `active`; a call whose index is in `faults` raises OSError before it does anything.  (A slice assignment
+    into the mapping cannot return an error: it succeeds or the process gets SIGBUS, which is the crash class of the cuts.)"""
+
+    def __init__(self, md, faults):
+        self.md, self.faults, self.n, self.log, self.active = md, set(faults), 0, [], False
+
+    def tick(self, kind, detail):
+        if not self.active:
+            return
+        i = self.n
+        self.n += 1
+        bad = i in self.faults
+        self.log.append((i, kind, detail, bad))
+        if bad:
+            code = errno.ENOSPC if kind == 'T' else errno.ENOMEM
+            raise OSError(code, os.strerror(code) + ' (injected)')
+
+    def __enter__(self):
+        inj, real_mod = self, mmap
+
+        def mmap_(fileno, length, *a, **kw):
+            inj.tick('M', length)
+            return real_mod.mmap(fileno, length, *a, **kw)
+
+        class ModProxy:
+            mmap = staticmethod(mmap_)
+
+            def __getattr__(self, name):
+                return getattr(real_mod, name)
+
+        class FileProxy:
+            def __init__(self, f):
+                self._pv_f = f
+
+            def truncate(self, n=None):
+                inj.tick('T', n)
+                return self._pv_f.truncate(n)
+
+            def __getattr__(self, name):
+                return getattr(self._pv_f, name)
+
+            def __enter__(self):
+                self._pv_f.__enter__()
+                return self
+
+            def __exit__(self, *a):
+                return self._pv_f.__exit__(*a)
+
+            def __bool__(self):
+                return True
+
+        def open_(file, mode='r', *a, **kw):
+            f = builtins.open(file, mode, *a, **kw)
+            return FileProxy(f) if any(c in mode for c in 'aw+x') else f
+
+        self.saved_mmap = self.md.mmap
+        self.had_open = 'open' in self.md.__dict__
+        self.saved_open = self.md.__dict__.get('open')
+        self.md.mmap = ModProxy()
+        self.md.open = open_
+        return self
+
+    def __exit__(self, *a):
+        self.md.mmap = self.saved_mmap
+        if self.had_open:
+            self.md.open = self.saved_open
+        else:
+            try:
+                del self.md.open
+            except AttributeError:
+                pass
+        return False
+
+
+class FaultRef:
+    """admissible on-disk states of a history in which some operations FAILED (raised to the caller, who carried on): the
+    reference run over the operations so far where a failed operation either completed, or left no trace, or — like an
+    in-flight operation at a crash — left its new key at (0, 0).  Once a state has been observed it is the state."""
+
+    def __init__(self, ops):
+        self.states = {()}
+        self.keys = {kstr(o[1]) for o in ops if o[0] != 'o'}
+        self.written = {(kstr(o[1]), o[2], o[3]) for o in ops if o[0] == 'w'}
+
+    @staticmethod
+    def apply(s, op, full):
+        if op[0] == 'o':
+            return s
+        k = kstr(op[1])
+        idx = next((i for i, e in enumerate(s) if e[0] == k), None)
+        if op[0] == 'w' and full:
+            e = (k, op[2], op[3])
+            return s + (e,) if idx is None else s[:idx] + (e,) + s[idx + 1:]
+        return s + ((k, 0, 0),) if idx is None else s
+
+    def step(self, op, completed):
+        if completed:
+            self.states = {self.apply(s, op, True) for s in self.states}
+        else:
+            self.states = {t for s in self.states for t in (s, self.apply(s, op, False), self.apply(s, op, True))}
+
+    @property
+    def strs(self):
+        return sorted(triples_str(s) for s in self.states)
+
+    def admissible(self, r, completed=None, inside=None):
+        return any(triples_str(s) == r for s in self.states)
+
+    def narrow(self, r):
+        keep = {s for s in self.states if triples_str(s) == r}
+        if keep:
+            self.states = keep
+
+    def classify(self, r):
+        return '-'
+
+
+FaultRef.why_not = Ref.why_not
+
+
+def fault_head(init, ops, faults):
+    return 'initial size %d, history [%s], the fallible file calls (truncate / mmap) number %s return OSError to the writer, which carries on: ' % (
+        init, short_ops(ops), ','.join(str(f) for f in sorted(faults)))
+
+
+def check_faults(ctx, judge, md, scratch, init, ops, faults, fname='gauge_all_777.db', verbose=False, cont_override=None):
+    """ERROR RETURNS: the history is run on ONE writer object; the fallible file calls listed in `faults` fail with OSError, the
+    caller catches the exception and goes on with the next operation (a failed constructor is retried by the next operation).
+    From the first failure on, after every operation the live file is read, collected and reopened by a new writer: nothing
+    raises and what is read is an admissible state (FaultRef).  Returns the number of fallible calls seen."""
+    p = os.path.join(scratch.dir, fname)
+    if os.path.exists(p):
+        os.unlink(p)
+    inj = FaultInjector(md, faults)
+    ref = FaultRef(ops)
+    fresh = fresh_key_for(md, ops)
+    saved = md._INITIAL_MMAP_SIZE
+    case = {'kind': 'fault', 'init': init, 'ops': ops, 'faults': sorted(faults)}
+    if fname != 'gauge_all_777.db':
+        case['fname'] = fname
+    if cont_override:
+        case['cont'] = cont_override
+    head0 = fault_head(init, ops, faults)
+    box = [None]
+
+    def attempt(fn):
+        md._INITIAL_MMAP_SIZE = init
+        inj.active = True
+        try:
+            with inj:
+                fn()
+            return None
+        except lib.Infra:
+            raise
+        except Exception as e:  # noqa: the caller catches whatever the store raises and carries on
+            return e
+        finally:
+            inj.active = False
+            md._INITIAL_MMAP_SIZE = saved
+
+    def construct():
+        box[0] = md.MmapedDict(p)
+
+    def perform(op):
+        def fn():
+            if box[0] is None:
+                construct()
+            d = box[0]
+            if op[0] == 'w':
+                d.write_value(kstr(op[1]), bf(op[2]), bf(op[3]))
+            elif op[0] == 'r':
+                d.read_value(kstr(op[1]))
+            else:
+                box[0] = None
+                d.close()
+                construct()
+        return fn
+
+    hit = False
+    try:
+        for i in range(len(ops) + 1):
+            before = inj.n
+            e = attempt(construct if i == 0 else perform(ops[i - 1]))
+            injected = any(l[3] for l in inj.log if l[0] >= before)
+            if i > 0:
+                ref.step(ops[i - 1], e is None)
+            if e is not None:
+                ctx.count('error-return-%s' % ('injected-%s' % inj.log[-1][1] if injected else 'later-op-raises-' + errname(e)))
+                if not hit and not injected and not isinstance(e, OSError):
+                    judge.fail('C11:writer-raises', head0 + '%s raised %s before any injected failure' % (
+                        base.step_name(ops, i), ('%s: %s' % (type(e).__name__, e))[:200]), case)
+                    return inj.n
+            hit = hit or injected
+            if not hit:
+                continue
+            where = 'after %s %s' % (base.step_name(ops, i), 'completed' if e is None else 'failed with %s' % errname(e))
+            head = head0 + where + ': '
+            reader = base.file_reader(md, p)
+            collect = observe_collect(scratch.dir)
+            reopen = observe_reopen(md, p, os.path.join(scratch.copydir, fname), init, fresh)
+            ctx.case((hist_key(init, ops), 'faults', tuple(sorted(faults)), i),
+                     {'init': init, 'history': short_ops(ops, 4), 'failing calls': sorted(faults), 'step': where, 'reader': short_triples(reader, 100)})
+            ctx.count('stream-error-returns')
+            if verbose:
+                print('REPLAY  %s: fallible calls so far %s; file %d bytes, reader=%s collect=%s reopen=%s' % (
+                    where, ' '.join('%s%s%s' % (l[1], l[2], '!' if l[3] else '') for l in inj.log), os.path.getsize(p),
+                    short_triples(reader, 160), collect, short_triples(reopen[0], 160)))
+            judge_file(judge, ref, head, case, os.path.getsize(p), reader, 0, False)
+            judge_collect(judge, head, case, [os.path.getsize(p)], collect)
+            judge_reopen(judge, ref, head, case, reopen, 0, False, fresh)
+            if i == len(ops):
+                cont = cont_override if cont_override is not None else continuation_for(ops, len(ops) + min(faults) if faults else 0)
+                cobs, cerr = observe_continuation(md, p, os.path.join(scratch.copydir, 'cont-' + fname), init, cont)
+                start_ok = bool(cobs) and not cobs[0][0].startswith('!') and ref.admissible(cobs[0][0])
+                judge_continuation(judge, ops, head, case, cont, cobs, cerr, start_ok)
+            ref.narrow(reader)
+    finally:
+        md._INITIAL_MMAP_SIZE = saved
+        if box[0] is not None:
+            try:
+                box[0].close()
+            except Exception:  # noqa
+                pass
+        scratch.put(fname, None)
+    return inj.n
+
+
+def run_faults(ctx, judge, md, scratch, real_size, depth):
+    """every single fallible call of every history (fixed witnesses, the exhaustive alphabet, long label values at the real
+    size, seeded random histories) fails once; consecutive failures (the disk stays full) and random sets of failures"""
+    rng = ctx.rng
+    quick = ctx.tier == 'quick'
+    t_end = time.time() + ((8 if quick else 90) * (2 if ctx.broken else 1))
+
+    def lk(n):
+        return md.mmap_key('c', 'c_total', ['path'], ['x' * n], 'help')
+    v1, t1, v2, t2 = W['pi'], W['unix-ts'], W['one'], W['neg']
+    hs = [(SMALL, ops, 0) for ops in corpus(md) if ops]
+    hs.append((real_size, [['w', lk(30000), v1, t1], ['w', lk(40000), v2, t2], ['w', lk(200000), v1, t2], ['w', lk(5), v2, t1],
+                           ['w', lk(40000), v1, t1]], 0))
+    hs.append((real_size, [['w', lk(5), v1, t1], ['r', lk(70000)], ['w', lk(6), v2, t2], ['o'], ['w', lk(140000), v2, t1]], 0))
+    alpha = exhaustive_alphabet(md)
+    hs += [(SMALL, list(h), 2) for h in itertools.product(alpha, repeat=depth)]     # the constructor's two calls: covered above
+    for _ in range((60 if quick else 1500) * (3 if ctx.broken else 1)):
+        hs.append((SMALL, gen_history(rng, md, 10), -1))
+    runs = 0
+    for init, ops, first in hs:
+        if time.time() > t_end:
+            ctx.count('error-return-histories-skipped-time')
+            continue
+        n = check_faults(ctx, judge, md, scratch, init, ops, set())       # fault-free: how many fallible calls there are
+        if first < 0:
+            sets = [set(rng.sample(range(n), min(n, rng.choice((1, 1, 2, 3))))) for _ in range(3)]
+        else:
+            sets = [{q} for q in range(first, n)]
+            if first == 0:
+                sets += [{q, q + 1} for q in range(n)] + [{q, q + 1, q + 2} for q in range(2, n, 2)]
+        for fs in sets:
+            check_faults(ctx, judge, md, scratch, init, ops, fs)
+            runs += 1
+    ctx.extra['error_return_runs'] = runs
+
+
+
 # ------------------------------------------------------------------------------------------------- several worker files
 SECOND_MODES = ('liveall', 'sum', 'max', 'min', 'mostrecent', 'all')
 
@@ -1550,12 +1825,12 @@ def run(ctx):
     n_real = (12 if quick else 60) * widen
     n_pairs = (400 if quick else 3000) * widen
     maxlen = 12 if quick else 25
-    budget = 35 if quick else 420
+    budget = 44 if quick else 420        # (the error-return stream takes up to 8 s of it)
     ctx.rule = ('histories of write_value / read_value / close+reopen over mmap_key-built keys on the real store with its file effects '
                 '(create, truncate, slice writes) recorded; every prefix of the effect list is materialised as a worker file next to a healthy one '
                 'and read by read_all_values_from_file, MultiProcessCollector.collect() and a reopening writer. Fixed witnesses, every history '
                 'of length %d over a 6-operation alphabet at initial size %d, seeded random histories (≤ %d operations) at size %d and at the '
-                'real size %d, pairs of files at independent cuts%s. A case is one (history, cut); non-trivial when the cut is strictly inside an '
+                'real size %d, pairs of files at independent cuts, error returns (each fallible truncate/mmap call fails with OSError, the same writer carries on)%s. A case is one (history, cut); non-trivial when the cut is strictly inside an '
                 'operation or the constructor; distinct by (history, cut index)'
                 % (depth, SMALL, maxlen, SMALL, real_size, '' if quick else ', forked writers killed with SIGKILL at random instants'))
     tmp = tempfile.mkdtemp(prefix='pv-c11-')
@@ -1576,6 +1851,7 @@ def run(ctx):
         recs += run_histories(ctx, judge, md, scratch, [(SMALL, list(h)) for h in itertools.product(alpha, repeat=depth)], 'exhaustive')
         ctx.exhaustive = True
         ctx.extra['exhaustive_space'] = 'every cut of all %d histories of length %d over 6 operations at initial size %d' % (6 ** depth, depth, SMALL)
+        run_faults(ctx, judge, md, scratch, real_size, depth)
         done = 0
         while done < n_small and time.time() - ctx.t0 < budget:
             batch = [(SMALL, gen_history(ctx.rng, md, maxlen)) for _ in range(min(50, n_small - done))]
@@ -1622,6 +1898,11 @@ def replay(ctx, case):
                           fname=c.get('fname', 'gauge_all_777.db'))
             compare_continuations(ctx, pending)
             compare_second_generation(ctx, pending2)
+        elif kind == 'fault':
+            init, ops = int(c['init']), c['ops']
+            print('REPLAY ' + fault_head(init, ops, c['faults']))
+            check_faults(ctx, judge, md, scratch, init, ops, set(c['faults']), fname=c.get('fname', 'gauge_all_777.db'), verbose=True,
+                         cont_override=c.get('cont'))
         elif kind == 'vanish':
             run_vanish(ctx, judge, md, tmp)
         elif kind == 'two-reads':
